@@ -55,7 +55,8 @@ def processCase (c : Case) (verbose : Bool) : List String :=
   | none =>
       -- outside the modelled domain: only the real outcome is reported
       let parsed := match c.real with | .ok _ r => r.parsed | _ => true
-      [s!"RES {c.id} modelled=0 real={realKind c.real} parsed={bstr parsed} reason={c.unmodelledReason.replace " " "_"}"]
+      let c15 := !(match c.real with | .panic _ => true | _ => false) && parsed
+      [s!"RES {c.id} modelled=0 real={realKind c.real} parsed={bstr parsed} C15=-1{bstr c15} reason={c.unmodelledReason.replace " " "_"}"]
   | some item =>
       let rt := decide (item.print = c.input)
       let m := expand c.variant c.attr item
@@ -69,7 +70,7 @@ def processCase (c : Case) (verbose : Bool) : List String :=
              r.prefixOk, r.parsed)
         | _, .ok _ r => (false, false, r.prefixOk, r.parsed)
         | _, _ => (true, true, true, true)
-      let props := Obs.evalAll c.variant c.attr item c.input m c.real c.info
+      let props := Obs.evalAll c.variant c.attr item c.input m c.real c.info ++ " " ++ Obs.evalC15 c.attr item m c.real
       let head := s!"RES {c.id} modelled=1 rt={bstr rt} model={outcomeKind m} real={realKind c.real} agree={bstr agree} tok={bstr tok} struct={bstr struct_} prefix={bstr prefixOk} parsed={bstr parsed} {props}"
       if verbose then
         let mt := match m with
